@@ -225,12 +225,19 @@ def rule_unicode(ctx, R):
     conv = [n for n in names if "from_u32" in n or "from_digit" in n or "transmute" in n]
     R.check(conv == ["core::char::from_u32"] or conv == ["std::char::from_u32"] or (len(conv) == 1 and conv[0].endswith("char::from_u32") and "unchecked" not in conv[0]), "unicode:checked", "the scalar-value check is std's checked char::from_u32: %s" % conv, b.span)
     R.check(not any(n.endswith("::unwrap") or n.endswith("::expect") or "unchecked" in n for n in names), "unicode:no_unwrap", "no unwrap/expect/unchecked conversion in num_to_unicode", b.span, names)
-    # the returned value: ok_or_else(from_u32(to_int(floor(num))), closure)
-    rets = []
-    for bi, t in b.calls():
-        if t["dest"]["l"] == 0:
-            rets.append(roles.of_origin(("call", callee_name(t["f"], fb), tuple(org.of_operand(a, bi, "t") for a in t["args"]))))
-    R.check(len(rets) == 1 and rets[0].startswith("Option::ok_or_else(char::from_u32(BigNum::to_int(Num::floor(NUMARG)))"), "unicode:shape", "output conversion is floor -> low limb -> checked scalar value -> Error on failure: %s" % rets, b.span)
+    # the returned value: ok_or_else(from_u32(to_int(floor(num))), closure), or the same decision written as a match
+    from . import p_c06
+    _, d = p_c06.fn_lang(fb, b.name, epsilon=set())
+    CONV = "char::from_u32(BigNum::to_int(Num::floor(P1)))"
+    try:
+        words = d.enumerate_all(limit=50)
+    except RuntimeError:
+        words = []
+    rets = sorted((tuple(x for x in w if x.startswith("SW[")), w[-1]) for w in words)
+    comb = len(rets) == 1 and rets[0][0] == () and (rets[0][1].startswith("RET(Option::ok_or_else(%s," % CONV) or rets[0][1].startswith("RET(Option::ok_or(%s," % CONV))
+    mat = (len(rets) == 2 and rets[0][0] == ("SW[DISCR(%s)]=0" % CONV,) and rets[0][1].startswith("RET(Result::Err{")
+           and rets[1] == (("SW[DISCR(%s)]=1" % CONV,), "RET(Result::Ok{SOME(%s)})" % CONV))
+    R.check(comb or mat, "unicode:shape", "output conversion is floor -> low limb -> checked scalar value -> the character, Error on failure: %s" % [r[1][:90] for r in rets], b.span)
     # the emitted push and every caller propagate the error
     for name in ("hyeong::core::execute::push_stack_wrap", "hyeong::app::run::run"):
         body = fb.bodies.get(name)
